@@ -1,10 +1,123 @@
-(* Props/C04.v -- property C04 (provisional instances; the general theorems are being added) *)
-From Coq Require Import ZArith NArith List.
-From RP Require Import Model.Showdown Spec.SpecPots.
+(* Props/C04.v -- property C04: Showdown::settle (src/gameplay/showdown.rs, model Model/Showdown.v)
+   distributes main and side pots according to the layered-pot specification Spec/SpecPots.v,
+   for EVERY well-formed ledger of ANY number of players (arbitrary list length, arbitrary Z
+   commitments, arbitrary N strength keys with ties).  Hypotheses of all theorems:
+     wf_ledger l = true                      (Spec/SpecPots.v; includes 0 <= largest commitment)
+     Forall (fun p => reward p = 0) l        (Showdown::from starts from zero rewards). *)
+From Coq Require Import ZArith NArith QArith Qabs List Bool.
+From RP Require Import Model.Showdown Spec.SpecPots Proofs.C04_Main.
 Import ListNotations.
 Open Scope Z_scope.
-Definition unit_ledger_1 := [mkPay 0 150 Shoving 4; mkPay 0 200 Shoving 3; mkPay 0 350 Shoving 1; mkPay 0 50 Shoving 0]%N.
-Theorem C04_unit_ledger_instance :
-  wf_ledger unit_ledger_1 = true /\ settle unit_ledger_1 = Some [500; 100; 150; 0] /\ payout_ok unit_ledger_1 [500; 100; 150; 0] = true.
-Proof. vm_compute. repeat split; reflexivity. Qed.
-Print Assumptions C04_unit_ledger_instance.
+
+(* no panic (division by zero winners) and the loops terminate within the fuel *)
+Theorem C04_settles : forall l, wf_ledger l = true -> Forall (fun p => reward p = 0) l ->
+  exists rw, settle l = Some rw /\ length rw = length l.
+Proof. exact C04_settles_wf_proof. Qed.
+Print Assumptions C04_settles.
+
+(* in fact this needs no hypothesis: no ledger whatsoever makes settle panic or run out of fuel *)
+Theorem C04_settles_any : forall l, exists rw, settle l = Some rw /\ length rw = length l.
+Proof. exact C04_settles_proof. Qed.
+Print Assumptions C04_settles_any.
+
+(* pays out exactly the chips put in *)
+Theorem C04_total : forall l, wf_ledger l = true -> Forall (fun p => reward p = 0) l ->
+  forall rw, settle l = Some rw -> sumZ rw = sumZ (map risked l).
+Proof. exact C04_total_proof. Qed.
+Print Assumptions C04_total.
+
+(* a folded player gets nothing *)
+Theorem C04_folded : forall l, wf_ledger l = true -> Forall (fun p => reward p = 0) l ->
+  forall rw i p, settle l = Some rw -> nth_error l i = Some p -> status p = Folding ->
+  nth_error rw i = Some 0.
+Proof. exact C04_folded_proof. Qed.
+Print Assumptions C04_folded.
+
+(* every reward is non-negative *)
+Theorem C04_nonneg : forall l, wf_ledger l = true -> Forall (fun p => reward p = 0) l ->
+  forall rw, settle l = Some rw -> Forall (fun r => 0 <= r) rw.
+Proof. exact C04_nonneg_proof. Qed.
+Print Assumptions C04_nonneg.
+
+(* nobody receives more than what the others' contributions up to his own commitment allow *)
+Theorem C04_cap : forall l, wf_ledger l = true -> Forall (fun p => reward p = 0) l ->
+  forall rw i p r, settle l = Some rw -> nth_error l i = Some p -> nth_error rw i = Some r ->
+  r <= sumZ (map (fun q => Z.min (risked q) (risked p)) l).
+Proof. exact C04_cap_proof. Qed.
+Print Assumptions C04_cap.
+
+(* only a winner of some layer is paid *)
+Theorem C04_best : forall l, wf_ledger l = true -> Forall (fun p => reward p = 0) l ->
+  forall rw i r, settle l = Some rw -> nth_error rw i = Some r -> r > 0 ->
+  exists hi, In hi (levels l) /\ nth i (layer_winners l hi) false = true.
+Proof. exact C04_best_proof. Qed.
+Print Assumptions C04_best.
+
+(* every layer goes to the strongest eligible hands and is split equally, with only whole odd chips
+   left over, per merged pot: the reward differs from the rational fair share by less than the number
+   of merged pots won (and is 0 when the fair share is 0) *)
+Theorem C04_fair : forall l, wf_ledger l = true -> Forall (fun p => reward p = 0) l ->
+  forall rw i r f, settle l = Some rw -> nth_error rw i = Some r ->
+  nth_error (fair_share l) i = Some f ->
+  ((f == 0)%Q -> r = 0) /\
+  (~ (f == 0)%Q -> (Qabs ((r # 1) - f) < (Z.max 1 (pots_won l i) # 1))%Q).
+Proof. exact C04_fair_proof. Qed.
+Print Assumptions C04_fair.
+
+(* umbrella: the payout passes the complete oracle of the specification *)
+Theorem C04_payout_ok : forall l, wf_ledger l = true -> Forall (fun p => reward p = 0) l ->
+  forall rw, settle l = Some rw -> payout_ok l rw = true.
+Proof. exact C04_payout_ok_proof. Qed.
+Print Assumptions C04_payout_ok.
+
+(* ---------- the hypotheses are satisfiable: the unit-test ledgers of showdown.rs ---------- *)
+(* multiway_all_in_with_uneven_stacks *)
+Definition ex_uneven : list pay :=
+  [mkPay 0 150 Shoving 4%N; mkPay 0 200 Shoving 3%N; mkPay 0 350 Shoving 1%N; mkPay 0 50 Shoving 0%N].
+Example ex_uneven_wf : wf_ledger ex_uneven = true.
+Proof. vm_compute. reflexivity. Qed.
+Example ex_uneven_zero : Forall (fun p => reward p = 0) ex_uneven.
+Proof. repeat constructor. Qed.
+Example ex_uneven_settle : settle ex_uneven = Some [500; 100; 150; 0].
+Proof. vm_compute. reflexivity. Qed.
+Example ex_uneven_ok : payout_ok ex_uneven [500; 100; 150; 0] = true.
+Proof. vm_compute. reflexivity. Qed.
+
+(* multiway_all_in_with_side_pot *)
+Definition ex_side : list pay :=
+  [mkPay 0 50 Shoving 4%N; mkPay 0 100 Shoving 3%N; mkPay 0 150 Betting 1%N; mkPay 0 150 Betting 0%N].
+Example ex_side_wf : wf_ledger ex_side = true.
+Proof. vm_compute. reflexivity. Qed.
+Example ex_side_zero : Forall (fun p => reward p = 0) ex_side.
+Proof. repeat constructor. Qed.
+Example ex_side_settle : settle ex_side = Some [200; 150; 100; 0].
+Proof. vm_compute. reflexivity. Qed.
+Example ex_side_ok : payout_ok ex_side [200; 150; 100; 0] = true.
+Proof. vm_compute. reflexivity. Qed.
+
+(* winners_folded: the strongest hands folded (hypotheses of C04_folded) *)
+Definition ex_folded : list pay :=
+  [mkPay 0 50 Folding 9%N; mkPay 0 100 Betting 2%N; mkPay 0 75 Folding 9%N; mkPay 0 100 Betting 1%N].
+Example ex_folded_wf : wf_ledger ex_folded = true.
+Proof. vm_compute. reflexivity. Qed.
+Example ex_folded_zero : Forall (fun p => reward p = 0) ex_folded.
+Proof. repeat constructor. Qed.
+Example ex_folded_settle : settle ex_folded = Some [0; 325; 0; 0].
+Proof. vm_compute. reflexivity. Qed.
+Example ex_folded_hyp : exists p, nth_error ex_folded 2 = Some p /\ status p = Folding.
+Proof. eexists. split; reflexivity. Qed.
+
+(* a tie with an odd chip: 15 chips between two equal hands, fair shares 15/2 (hypotheses of
+   C04_best / C04_fair with a non-integral fair share) *)
+Definition ex_tie : list pay :=
+  [mkPay 0 5 Betting 7%N; mkPay 0 5 Betting 7%N; mkPay 0 5 Folding 9%N].
+Example ex_tie_wf : wf_ledger ex_tie = true.
+Proof. vm_compute. reflexivity. Qed.
+Example ex_tie_zero : Forall (fun p => reward p = 0) ex_tie.
+Proof. repeat constructor. Qed.
+Example ex_tie_settle : settle ex_tie = Some [8; 7; 0].
+Proof. vm_compute. reflexivity. Qed.
+Example ex_tie_fair : nth_error (fair_share ex_tie) 1 = Some ((0 + (15 # 1) / (2 # 1))%Q) /\ pots_won ex_tie 1 = 1.
+Proof. split; vm_compute; reflexivity. Qed.
+Example ex_tie_best : nth_error [8; 7; 0] 0 = Some 8 /\ 8 > 0.
+Proof. split; reflexivity. Qed.
